@@ -10,12 +10,13 @@ git worktree add -q --detach $WT HEAD || exit 2
 export CARGO_NET_OFFLINE=true
 for stem in "$@"; do
   prop=${stem%_*}
+  feat=""; if [ "$prop" = "C20" ]; then feat="--features mock-core,mock-std,mock-tokio-1,mock-futures-io-0-3,mock-embedded-hal-1"; fi
   cd $WT; git checkout -q -- .; git clean -qfd tests
   cp /tmp/wt/out/${stem}_demo.rs tests/seeded_${stem}.rs
   # without patch
-  cargo test --offline --test seeded_${stem} > /tmp/wt/confirm/${stem}.clean.log 2>&1; clean_rc=$?
-  git apply /tmp/wt/out/${stem}.patch.diff; apply_rc=$?
-  cargo test --offline --test seeded_${stem} > /tmp/wt/confirm/${stem}.patched.log 2>&1; patched_rc=$?
+  cargo test --offline $feat --test seeded_${stem} > /tmp/wt/confirm/${stem}.clean.log 2>&1; clean_rc=$?
+  git apply /tmp/wt/out/${stem}.patch.diff 2>/dev/null || git apply --3way /tmp/wt/out/${stem}.patch.diff; apply_rc=$?
+  cargo test --offline $feat --test seeded_${stem} > /tmp/wt/confirm/${stem}.patched.log 2>&1; patched_rc=$?
   rm tests/seeded_${stem}.rs
   cargo test --workspace --no-fail-fast --offline > /tmp/wt/confirm/${stem}.suite.log 2>&1; suite_rc=$?
   passed=$(grep -h "^test result" /tmp/wt/confirm/${stem}.suite.log | sed 's/.* \([0-9]*\) passed.*/\1/' | paste -sd+ | bc)
